@@ -187,6 +187,16 @@ check("C20", level="model_checking", engine="nx",
       note=NX_NOTE + " Dumb terminal only; command output is delivered whole at completion; the smart-terminal path and "
            "output arriving in pieces through real pipes are not covered by this engine.", design_ref="5/C20")
 
+check("C12", level="model_checking", engine="ix",
+      technique="bounded-exhaustive program families evaluated by an independent reference evaluator of the manifest language and by the real ManifestParser; canonical graph comparison",
+      text="Four complete manifest families (scoping across include/subninja, statement forms incl. every legacy "
+           "self-referencing phony shape, lexical token strings in path and value positions, all single-token mutations of "
+           "15 base manifests) are evaluated by lib/refmanifest.py, written from the manual, and parsed by the real parser: "
+           "equal canonical graph dumps (pools, defaults, per statement outputs, input kinds, validations, pool and every "
+           "evaluated rule variable), agreeing rejections with file:line. Readings the manual leaves open are all accepted.",
+      note="Trusted base: lib/refmanifest.py (reference evaluator), lib/family_manifest.py, src/ix/manifest.cc (dump). "
+           "$^ and ninja_required_version handling are outside the families.", design_ref="5/C12")
+
 ALL = ["C%02d" % i for i in range(1, 21)]
 
 
